@@ -133,7 +133,7 @@ def run_symgo(spec, wdir, name, timeout):
     return json.load(open(op)), rc, err, time.time() - t0
 
 
-def run_native(pkgdir, native_ov, reqs, wdir, name, timeout=900, repeat=1):
+def run_native(pkgdir, native_ov, reqs, wdir, name, timeout=900, repeat=1, race=False, jitter=False):
     """runs the harness natively on the given requests; returns list of observation lists (or None on failure)"""
     ovp = os.path.join(wdir, name + ".overlay.json")
     json.dump({"Replace": native_ov}, open(ovp, "w"))
@@ -145,12 +145,20 @@ def run_native(pkgdir, native_ov, reqs, wdir, name, timeout=900, repeat=1):
     env = goenv()
     env["VERIF_VECTORS"] = vp
     env["VERIF_OUT"] = outp
+    if jitter:
+        env["VERIF_JITTER"] = "1"
     cmd = ["go", "test", "-tags", "verif", "-vet=off", "-count=1", "-overlay", ovp, "-run", "^TestVerifReplay$",
-           f"-timeout={timeout}s", "./" + pkgdir]
+           f"-timeout={timeout}s"] + (["-race"] if race else []) + ["./" + pkgdir]
     try:
         r = subprocess.run(cmd, cwd=REPO, env=env, capture_output=True, text=True, timeout=timeout + 60)
     except subprocess.TimeoutExpired:
         return None, "native run timed out"
+    if race and os.path.exists(outp):
+        # the race detector fails the test binary after the run; the observations were written before that
+        res = json.load(open(outp))
+        if "WARNING: DATA RACE" in r.stdout + r.stderr:
+            res = [o + ["ASSERT-FAIL:no-data-race"] for o in res]
+        return res, ""
     if r.returncode != 0 or not os.path.exists(outp):
         return None, (r.stdout + r.stderr)[-3000:]
     return json.load(open(outp)), ""
@@ -316,6 +324,7 @@ def main():
             if native is None:
                 problems.append((2, f"NATIVE-RUN-FAILED {sname}: {nerr}"))
         confirmed = {}  # (job, idx) -> bool
+        sched_confirmed = {}
         if native is not None:
             for (kind, jid, i), obs in zip(req_meta, native):
                 r = next(x for x in out["results"] if x["id"] == jid)
@@ -326,6 +335,12 @@ def main():
                     # assertions that only the native run can evaluate (e.g. scanning real encoded bytes)
                     nat_only = [x for x in obs if x.startswith("ASSERT-FAIL:native-only:")]
                     obs = [x for x in obs if not x.startswith("ASSERT-FAIL:native-only:")]
+                    if meta[jid].get("_schedule_replay") and (r.get("n_violations") or eobs == obs):
+                        # the goroutine schedule is an input of the symbolic run and cannot be forced natively: once
+                        # the job reports a violation the native run of a *passing* schedule may fail as well
+                        if eobs == obs:
+                            cov["traces_validated_against_impl"] += 1
+                        continue
                     if nat_only and not any(x.startswith("ASSERT-FAIL:") for x in eobs):
                         problems.append((3, f"NATIVE-ONLY-ASSERTION-FAILED {sname}/{jid}: {nat_only[:2]} vector={reqs[req_meta.index((kind, jid, i))]['vector']}"))
                     bad = [x for x in eobs if x == "PANIC" or x == "ASSUME-FAIL" or x.startswith("ENGINE-")]
@@ -341,6 +356,14 @@ def main():
                     ok = want in obs
                     if not ok and meta[jid].get("_maporder_replay") and v["kind"] != "panic":
                         ok = native_retry(suite, native_ov, reqs[req_meta.index((kind, jid, i))], want, wdir)
+                    if not ok and meta[jid].get("_schedule_replay"):
+                        # a schedule-dependent counterexample: any failure of the property's assertions on the native
+                        # run of the same inputs confirms it; otherwise replay by repetition (random pauses at the
+                        # yield points; under the Go race detector for a reported data race). Confirmed once per job.
+                        ok = any(x.startswith("ASSERT-FAIL:") or x == "PANIC" for x in obs)
+                        if not ok and sched_confirmed.get(jid) is None:
+                            sched_confirmed[jid] = native_retry_sched(suite, native_ov, reqs[req_meta.index((kind, jid, i))], wdir, race=(v["kind"] == "race"))
+                        ok = ok or bool(sched_confirmed.get(jid))
                     confirmed[(jid, i)] = ok
                     if ok:
                         cov["traces_validated_against_impl"] += 1
@@ -435,6 +458,7 @@ def main():
                 rp = os.path.join(replay_dir, f"{r['id']}_{v['label']}_{h}.json".replace("/", "_"))
                 json.dump({"property": pid, "suite": sname, "job": r["id"], "func": r["func"], "conf": r.get("conf") or {},
                            "vector": v["model"], "label": v["label"], "kind": v["kind"], "msg": v.get("msg"), "stack": v.get("stack"),
+                           "schedule": bool(j.get("_schedule_replay")),
                            "expect_native": "PANIC" if v["kind"] == "panic" else "ASSERT-FAIL:" + v["label"]}, open(rp, "w"), indent=1)
                 violations.append({"job": r["id"], "label": v["label"], "replay": rp, "model": v["model"]})
         # ---- cross-solver (thorough) ----
@@ -511,6 +535,17 @@ def native_retry(suite, native_ov, req, want, wdir, tries=40, batch=50):
     return False
 
 
+def native_retry_sched(suite, native_ov, req, wdir, race=False, tries=6, batch=40):
+    """schedule-dependent counterexamples (the goroutine schedule cannot be forced natively): re-run with random pauses"""
+    for t in range(tries):
+        res, err = run_native(suite["pkg"], native_ov, [req] * batch, wdir, "retry", race=race, jitter=True)
+        if res is None:
+            return False
+        if any(any(x.startswith("ASSERT-FAIL:") or x == "PANIC" for x in o) for o in res):
+            return True
+    return False
+
+
 def do_replay(path):
     d = json.load(open(path))
     mod = importlib.import_module("props." + d["property"])
@@ -522,7 +557,16 @@ def do_replay(path):
     atexit.register(lambda: shutil.rmtree(wdir, ignore_errors=True))
     ov, native_ov, _ = build_overlay(d["property"], suite, wdir)
     os.environ["VERIF_PANIC_MSG"] = "1"
-    res, err = run_native(suite["pkg"], native_ov, [{"func": d["func"], "conf": d["conf"], "vector": d["vector"]}], wdir, "replay")
+    req = {"func": d["func"], "conf": d["conf"], "vector": d["vector"]}
+    if d.get("schedule"):
+        # the goroutine schedule cannot be forced natively: replay by repetition
+        ok = native_retry_sched(suite, native_ov, req, wdir, race=(d["kind"] == "race"))
+        if ok:
+            log(f"REPRODUCED (a native run of the same inputs fails; {d['expect_native']} in the symbolic run) for property={d['property']} job={d['job']}")
+            return 1
+        log("not reproduced")
+        return 0
+    res, err = run_native(suite["pkg"], native_ov, [req], wdir, "replay")
     if res is None:
         log("replay could not run:", err)
         return 2
